@@ -380,10 +380,13 @@ func (x *lcase) run(w int) {
 				}
 			}
 			typed = " " + strings.Join(ws[:4], ",  ") + "\n" + strings.Join(ws[4:], " 1.\t") + " \n"
-		case "pass":
-			userPass = fmt.Sprintf("TREZOR %d", x.line)
+		case "pass", "pass_space", "pass_lead", "pass_trail", "pass_tab", "pass_nl", "pass_inner", "pass_nonascii":
+			// the passphrase travels: stdin -> sys.ReadPassword (one read, trailing bytes below 0x20 dropped) -> bip39 seed,
+			// and BIP39 uses it verbatim: blanks at either end, inner blanks, tabs and non-ASCII bytes all count
+			var typed string
+			typed, userPass = passphraseOf(cf.Mnem, x.line)
 			x.extra = append(x.extra, "-p39")
-			x.stdin = userPass + "\n"
+			x.stdin = typed
 		case "badsum":
 			// another last word: the checksum bits live there; keep trying until refhd says the checksum is wrong
 			for k := 1; ; k++ {
@@ -797,6 +800,36 @@ func (x *lcase) run(w int) {
 	}
 }
 
+// what is typed on stdin for a passphrase class, and the passphrase the wallet must feed to BIP39
+func passphraseOf(class string, line int) (typed, want string) {
+	switch class {
+	case "pass":
+		want = fmt.Sprintf("TREZOR %d", line)
+	case "pass_space":
+		want = " "
+	case "pass_lead":
+		want = fmt.Sprintf("  lead%d", line)
+	case "pass_trail":
+		want = fmt.Sprintf("trail%d  ", line)
+	case "pass_tab":
+		want = fmt.Sprintf("\ttab\t%d", line)
+		return want + "\t\n", want // a trailing tab is a control character: the console reader drops it
+	case "pass_nl":
+		want = fmt.Sprintf("crlf%d ", line)
+		return want + "\r\n", want
+	case "pass_inner":
+		want = fmt.Sprintf("in  ner   %d", line)
+	case "pass_nonascii":
+		want = fmt.Sprintf("\xc5\xbc\xc3\xb3\xf0\x9f\x94\x91 %d\xc2\xa0", line)
+	default:
+		panic("passphraseOf " + class)
+	}
+	return want + "\n", want
+}
+
+// passphrases of the API-level BIP39 cases: used verbatim by PBKDF2, whatever they contain
+var apiPassphrases = []string{"", " ", "  ", "TREZOR", "TREZOR ", " TREZOR", "\tTREZOR", "TREZOR\n", "TREZOR\r\n", "\n", "in ner", "tr\xc3\xa9zor\xc2\xa0", "\xff\x00\x01"}
+
 type XLine struct{ Tag, Str string }
 
 var reX = regexp.MustCompile(`^# (Root|Prnt|Leaf): ([1-9A-HJ-NP-Za-km-z]+)\s*$`)
@@ -895,14 +928,17 @@ func bip39Case(c *Case, line int) {
 		fail("bip39-entropy", fmt.Sprintf("bip39.MnemonicToByteArray(%q, raw) = %x (%v), the entropy is %x", want, raw, err, ent))
 		return
 	}
-	pass := fmt.Sprintf("p%d", line%3)
-	if line%3 == 0 {
-		pass = ""
-	}
-	sd, err := bip39.NewSeedWithErrorChecking(want, pass)
-	if err != nil || !bytes.Equal(sd, refhd.MnemonicSeed(want, pass)) {
-		fail("bip39-seed", fmt.Sprintf("bip39.NewSeedWithErrorChecking(%q, %q) = %x (%v), PBKDF2-HMAC-SHA512 gives %x", want, pass, sd, err, refhd.MnemonicSeed(want, pass)))
-		return
+	for _, pass := range append([]string{fmt.Sprintf("p%d", line)}, apiPassphrases...) {
+		ws := refhd.MnemonicSeed(want, pass)
+		sd, err := bip39.NewSeedWithErrorChecking(want, pass)
+		if err != nil || !bytes.Equal(sd, ws) {
+			fail("bip39-seed", fmt.Sprintf("bip39.NewSeedWithErrorChecking(%q, %q) = %x (%v), PBKDF2-HMAC-SHA512(mnemonic, \"mnemonic\" + passphrase) gives %x", want, pass, sd, err, ws))
+			return
+		}
+		if sd = bip39.NewSeed(want, pass); !bytes.Equal(sd, ws) {
+			fail("bip39-seed", fmt.Sprintf("bip39.NewSeed(%q, %q) = %x, PBKDF2-HMAC-SHA512(mnemonic, \"mnemonic\" + passphrase) gives %x", want, pass, sd, ws))
+			return
+		}
 	}
 	// every single-word substitution at a few positions: accepted exactly when the checksum still holds
 	for k := 0; k < 6; k++ {
